@@ -179,6 +179,14 @@ def packet_families(rng, tier, scale=1.0):
     for T in (255, 256, 257, 512):
         for b in G.label_at_packets(T):
             out.append(("label-at-%d" % T, b))
+    # every declared data length of a record with names inside (SOA, MX) from 0 to beyond the true one, with long uncompressed
+    # names and with pointers: any subtraction `rdlen - <something computed from the names>` meets each sign
+    for b in G.rdlen_sweep_packets():
+        out.append(("rdlen-sweep", b))
+    # EDNS option lengths at the top of the 16-bit range (an addition of the 4-byte option header in u16 wraps there), in a short
+    # packet and in one that really is that long
+    for b in G.opt_len_packets(thorough=(tier != "quick")):
+        out.append(("opt-len", b))
     if tier == "thorough":
         big = bytearray(G.chain_packet(16, tail_records=4000))
         out.append(("large", bytes(big)))  # > 65535 bytes
@@ -432,16 +440,20 @@ class C12(Prop):
     id = "C12"
     rule = ("one case per 16-bit flag word (all 65536 in both tiers): parse a question-only packet carrying that word, then apply "
             "set_flags / set_rcode / set_opcode / set_response / set_tid with arguments drawn from {0, all-ones, single bits, inverted "
-            "single bits, random} (thorough: 24 argument rounds per word), reading all getters and the raw bytes after each setter. "
+            "single bits, random} (thorough: 24 argument rounds per word), reading all getters and the raw bytes after each setter; plus "
+            "600 (thorough 6000) packets that carry an OPT record with extended flags / payload values, the same setters and reads "
+            "(the getters must keep reporting what the OPT record says, whatever the upper half of the flags argument). "
             "Non-trivial = every case (each exercises five setters); distinct = distinct (word, arguments).")
     strength = ("full statement at word level for every 16-bit word and every argument value (bit-vector proof, upper half of the "
                 "flags argument included); byte level for all 256x256 (header byte, u8 argument) pairs; packet level: frame (only "
                 "bytes 2-3 / 0-1 change) and getter-after-setter; setters never panic on a packet with a header.")
     assumptions = ["bytes < 256", "rcode/opcode arguments are u8, tid u16, flags u32 (the Rust types)"]
 
-    def one(self, rng, w, rounds):
+    def one(self, rng, w, rounds, opt=None):
         tid = rng.randint(0, 0xFFFF)
-        pkt = struct.pack(">HHHHHH", tid, w, 1, 0, 0, 0) + G.wire_name([b"example", b"com"]) + struct.pack(">HH", 1, 1)
+        pkt = struct.pack(">HHHHHH", tid, w, 1, 0, 0, 1 if opt else 0) + G.wire_name([b"example", b"com"]) + struct.pack(">HH", 1, 1)
+        if opt:  # (payload, extended flags): an OPT record, whose values the setters must leave alone
+            pkt += b"\0" + struct.pack(">HHBBHH", 41, opt[0], 0, 0, opt[1], 0)
         ops = ["P," + hx(pkt), "g"]
         args = []
         for _ in range(rounds):
@@ -454,23 +466,36 @@ class C12(Prop):
             for name, a in seq:
                 ops += ["%s,%d" % (name, a), "g", "b"]
                 args.append((name, a))
-        return Case("w%d" % w, "\t".join(ops), {"family": "flags", "w": w, "tid": tid, "pkt": pkt.hex(), "args": args})
+        return Case("w%d%s" % (w, "e%d_%d_%d" % (opt[0], opt[1], tid) if opt else ""), "\t".join(ops),
+                    {"family": "flags-edns" if opt else "flags", "w": w, "tid": tid, "pkt": pkt.hex(), "args": args, "opt": opt})
+
+    def edns_cases(self, rng, n, rounds):
+        """Packets that carry an OPT record (the getters then combine the header with what was parsed from it): a setter must neither
+        write to it nor change what the getters report from it, whatever the upper half of the flags argument says."""
+        out = []
+        efs = [0, 0x8000, 0x4000, 0x0001, 0xFFFF, 0x7FFF]
+        for i in range(n):
+            w = rng.choice([0, 0x0100, 0x8180, 0xFFFF, 0x8000, 0x0020, rng.getrandbits(16)])
+            ef = efs[i % len(efs)] if i < 4 * len(efs) else rng.getrandbits(16)
+            out.append(self.one(rng, w, rounds, opt=(rng.choice([0, 512, 1232, 4096, 65535]), ef)))
+        return out
 
     def gen(self, rng, tier):
         rounds = 1 if tier == "quick" else 24
         words = range(65536) if tier == "quick" else range(0, 65536, 1)
         if tier == "thorough":
-            return [self.one(rng, w, 2 if w % 16 else rounds) for w in words]
-        return [self.one(rng, w, rounds) for w in words]
+            return [self.one(rng, w, 2 if w % 16 else rounds) for w in words] + self.edns_cases(rng, 6000, 6)
+        return [self.one(rng, w, rounds) for w in words] + self.edns_cases(rng, 600, 3)
 
     def search(self, rng):
-        return [self.one(rng, w, 6) for w in range(65536)]
+        return [self.one(rng, w, 6) for w in range(65536)] + self.edns_cases(rng, 3000, 6)
 
-    def expect_g(self, tid, w):
+    def expect_g(self, tid, w, opt=None):
         qr = (w >> 15) & 1
         fl = w & 0x87F0
-        sec = ((fl >> 5) & 1) if qr else 0  # no OPT in these packets: DO is 0
-        return "g[tid=%d fl=%d rc=%d op=%d qr=%d sec=%d mp=512]" % (tid, fl, w & 15, (w >> 11) & 15, qr, sec)
+        mp, ef = opt if opt else (512, 0)
+        sec = ((fl >> 5) & 1) if qr else (ef >> 15) & 1  # AD in a response, DO (from the OPT record) in a query
+        return "g[tid=%d fl=%d rc=%d op=%d qr=%d sec=%d mp=%d]" % (tid, (ef << 16) | fl, w & 15, (w >> 11) & 15, qr, sec, mp)
 
     def oracle(self, case, io):
         w0 = no_crash(io)
@@ -480,8 +505,10 @@ class C12(Prop):
         tid, w = case.meta["tid"], case.meta["w"]
         if not io[0].startswith("OK"):
             return "question-only packet rejected: " + io[0]
-        if io[1] != self.expect_g(tid, w):
-            return "getters on the parsed packet: got %s, bytes say %s" % (io[1], self.expect_g(tid, w))
+        opt = case.meta.get("opt")
+        opt = tuple(opt) if opt else None
+        if io[1] != self.expect_g(tid, w, opt):
+            return "getters on the parsed packet: got %s, bytes say %s" % (io[1], self.expect_g(tid, w, opt))
         i = 2
         for name, a in case.meta["args"]:
             before = (tid, w)
@@ -503,8 +530,8 @@ class C12(Prop):
             if io[i + 2] != exp_b:
                 return "%s(%d) on tid=0x%04x word=0x%04x: header became %s, must be %s (only the addressed field may change)" % (
                     name, a, before[0], before[1], io[i + 2][2:10], exp_b[2:10])
-            if io[i + 1] != self.expect_g(tid, w):
-                return "after %s(%d): getters %s, stored value %s" % (name, a, io[i + 1], self.expect_g(tid, w))
+            if io[i + 1] != self.expect_g(tid, w, opt):
+                return "after %s(%d): getters %s, stored value %s" % (name, a, io[i + 1], self.expect_g(tid, w, opt))
             i += 3
         return None
 
@@ -767,7 +794,9 @@ class C04(Prop):
     id = "C04"
     rule = ("accepted packets as for C03 plus, for a fixed packet with and without OPT, all 65536 flag words (quick: 4096 of them); every "
             "getter (tid, flags, rcode, opcode, is_response, dnssec, max_payload, question_raw0/raw/text, qtype_qclass, the EDNS summary "
-            "fields) in several orders so the cache is exercised filled and empty. Expected values are decoded independently from the bytes. "
+            "fields) in several orders so the cache is exercised filled and empty; plus 300 (thorough 6000) histories in which the packet is "
+            "decompressed and its question renamed (same and different encoded length) between reads of the cached question, the getters "
+            "compared with the decoding of the bytes as they then are. Expected values are decoded independently from the bytes. "
             "Non-trivial: all; distinct = distinct (packet, getter order).")
     strength = ("proved: flags() = (ext_flags << 16) | (word & 0x87f0) and the DNSSEC indicator as bit identities for every word and OPT value "
                 "(C04_flags_word, C04_dnssec_bits); for every accepted packet the four question getters, with the cache empty and filled, "
@@ -775,7 +804,8 @@ class C04(Prop):
                 "text) with the following two 16-bit words as type and class, and that decoding is unique (C04_question_getters, "
                 "C04_question_decoding_unique); the EDNS summary the parser stores is the start of the OPT data, the number of options tiling "
                 "it, payload size, extended rcode, version and flags read from the OPT record, or nothing and 512 without OPT "
-                "(C04_edns_summary). PARTIAL: id / opcode / rcode are single reads of header bytes in the model; equality with the "
+                "(C04_edns_summary), and that record is the one OPT record of the declarative reading: payload = its class, extended "
+                "rcode/version/flags = its TTL bytes, count = options tiling its data (C04_summary_of_opt_record). PARTIAL: id / opcode / rcode are single reads of header bytes in the model; equality with the "
                 "implementation rests on the correspondence and the reference-decoder oracle.")
     assumptions = ["bytes < 256"]
 
@@ -787,11 +817,43 @@ class C04(Prop):
         order += ["q2", "qt", "q0", "q2", "qt", "q1", "g", "v"]
         return Case("g%d" % i, "\t".join(["P," + hx(b)] + order), {"family": fam, "pkt": b.hex()})
 
+    def after_rename(self, rng, i, b, m):
+        """The summaries of a packet that has been changed through the library must still be those of its current bytes: the
+        cached question is read, the packet is decompressed (recompute, or a rename of the first answer), the cache is read again
+        and the question is renamed to a name of the same / another encoded length; after every change the raw bytes are taken
+        (`b`) and the getters that follow are compared with the independent decoding of exactly those bytes."""
+        ops = ["P," + hx(b)] + [rng.choice(["q0", "q1", "q2", "qt", "g"]) for _ in range(rng.randint(0, 2))]
+        mode = rng.randrange(3)
+        if mode == 1 or (mode == 2 and m.counts[1] == 0):
+            ops += ["rc", "b"]
+        elif mode == 2:
+            nm = [b"r" + bytes([97 + rng.randrange(26)]), b"example"]
+            ops += ["W,an,0,n.M%s/*n" % hx(G.wire_name(nm)), "b"]
+        if rng.random() < 0.8:
+            ops += [rng.choice(["q0", "q1", "q2"]) for _ in range(rng.randint(1, 3))]
+        q = [bytes(l) for l in m.qname]
+        kind = rng.choice(["same", "same", "same", "other"])
+        if kind == "same" and q:
+            j = rng.randrange(len(q))
+            l = bytearray(q[j])
+            k = rng.randrange(len(l))
+            l[k] = 120 if l[k] not in (120, 88) else 121  # one byte of one label becomes 'x' ('y'): same encoded length
+            q[j] = bytes(l)
+        else:
+            q = [b"n" * rng.randint(1, 12)] + q[1:]
+        ops += ["W,q,0,n.M%s/*n" % hx(G.wire_name(q)), "b", "q0", "q1", "q2", "qt", "g"]
+        if rng.random() < 0.5:
+            ops += ["rc", "b", "q0", "q2", "g"]
+        return Case("r%d" % i, "\t".join(ops), {"family": "after-rename", "pkt": b.hex()})
+
     def gen(self, rng, tier):
         cases = []
         pk = special_valid(rng) + valid_packets(rng, 400 if tier == "quick" else 40000)
         for i, (b, m) in enumerate(pk):
             cases.append(self.one(rng, i, b, "packets"))
+        for i, (b, m) in enumerate(valid_packets(rng, 300 if tier == "quick" else 6000)):
+            if not G.has_header_pointer(b) and len(G.wire_name(m.qname)) < 200:
+                cases.append(self.after_rename(rng, i, b, m))
         step = 16 if tier == "quick" else 1
         q = [b"Example", b"COM"]
         k = len(cases)
@@ -813,13 +875,30 @@ class C04(Prop):
         m = decode_or_none(b)
         if m is None or not io[0].startswith("OK"):
             return None
-        wn = G.wire_name(m.qname)
-        exp = {"g": exp_g(m), "q0": "q0=%s/%d/%d" % (hx(wn), m.qtype, m.qclass), "q1": "q1=%s/%d/%d" % (hx(wn[:-1]), m.qtype, m.qclass),
-               "q2": "q2=%s/%d/%d" % (hx(name_text(m.qname)), m.qtype, m.qclass), "qt": "qt=%d/%d" % (m.qtype, m.qclass),
-               "v": "v[" + exp_view(m) + "]"}
+        def expected(m):
+            wn = G.wire_name(m.qname)
+            return {"g": exp_g(m), "q0": "q0=%s/%d/%d" % (hx(wn), m.qtype, m.qclass), "q1": "q1=%s/%d/%d" % (hx(wn[:-1]), m.qtype, m.qclass),
+                    "q2": "q2=%s/%d/%d" % (hx(name_text(m.qname)), m.qtype, m.qclass), "qt": "qt=%d/%d" % (m.qtype, m.qclass),
+                    "v": "v[" + exp_view(m) + "]"}
+        exp = expected(m)
+        changed = False
         for op, o in zip(case.line.split("\t")[1:], io[1:]):
-            if op in exp and o != exp[op]:
-                return "getter %s: got %s, the bytes say %s" % (op, o[:200], exp[op][:200])
+            if op == "rc" or op.startswith("W,"):
+                exp, changed = None, True  # the bytes changed: the next `b` says what they are now
+                if op == "rc" and o != "OK":
+                    return "recompute on an accepted packet: " + o
+                if op.startswith("W,") and ("ERR" in o or "PANIC" in o):
+                    return None if "PacketTooLarge" in o or "too long" in o else "rename through the cursor failed: " + o[:200]
+                continue
+            if op == "b":
+                m2 = decode_or_none(bytes.fromhex(o[2:]))
+                if m2 is None:
+                    return "after a change through the library the bytes are no longer an accepted packet"
+                exp = expected(m2)
+                exp.pop("v")  # offsets and the compression flag of the view are C08's subject
+                continue
+            if exp is not None and op in exp and o != exp[op]:
+                return "getter %s%s: got %s, the bytes say %s" % (op, " after a change of the packet" if changed else "", o[:200], exp[op][:200])
         return None
 
     def classify(self, case, why):
@@ -841,7 +920,7 @@ class C05(Prop):
                 "the declarative reading of the packet re-encoded without compression pointers - owner names and the names inside NS/CNAME/"
                 "PTR/MX/SOA data label by label, type/class/TTL as read, data length recomputed, opaque data byte for byte, in order; no "
                 "Panic outcome (C05_uncompress_is_plain_encoding); that output is accepted by the parser again, reads as the same question and "
-                "records (equal plain records of the two unique readings) and is a fixed point of decompression (C05_roundtrip, "
+                "records (equal plain records of the two unique readings, record by record equal labels/type/class/TTL/data reading) and is a fixed point of decompression (C05_roundtrip, "
                 "C05_reading_unique; also C05_header_kept, C05_name_copy_appends); the offset of the question, of every record and of the end of "
                 "the packet is translated to where it sits in the output (C05_boundary_translation). The statement is covered by theorems; "
                 "the run-time part is the correspondence of model and code, with exact comparison against the independent canonical "
@@ -1091,6 +1170,16 @@ class C14(Prop):
                     continue
                 cases.append(Case("z%d%s" % (i, "z" if z else ""), "Z,%s,%s" % (hx(nm), hx(z) if z else "-"),
                                   {"family": "from_str", "name": nm.hex(), "zone": bool(z)}))
+        # the same conversion appending to a buffer that already holds bytes (as the MX and SOA builders use it): the limits are
+        # those of the name, wherever in the buffer it starts
+        allnames = self.names(random.Random(rng.random()), "quick")
+        long_ones = [nm for nm in allnames if len(nm) >= 240]
+        pick = long_ones[:: max(1, len(long_ones) // (150 if tier == "quick" else 1500))] + allnames[:: max(1, len(allnames) // (150 if tier == "quick" else 1500))]
+        for j, nm in enumerate(pick):
+            pre = bytes(rng.randrange(256) for _ in range(rng.choice([1, 2, 2, 3, 10, 100, 165, 252, 253, 254, 255, 300])))
+            z = zone if (j % 4 == 0 and len(nm) < 200) else None
+            cases.append(Case("zp%d" % j, "ZP,%s,%s,%s" % (hx(pre), hx(nm), hx(z) if z else "-"),
+                              {"family": "from_str", "name": nm.hex(), "zone": bool(z), "prefix": pre.hex()}))
         # read back through a record
         k = 0
         for nm in self.names(random.Random(rng.random()), "quick")[9331:9331 + (400 if tier == "quick" else 4000)]:
@@ -1113,8 +1202,12 @@ class C14(Prop):
         if case.meta["family"] == "from_str":
             o = io[0]
             zl = self.ZONE if case.meta["zone"] else None
+            pre = bytes.fromhex(case.meta.get("prefix", ""))
             if o.startswith("OK:"):
                 wire = bytes.fromhex(o[3:]) if o[3:] != "-" else b""
+                if wire[:len(pre)] != pre:
+                    return "the conversion changed the %d bytes already in the buffer" % len(pre)
+                wire = wire[len(pre):]
                 try:
                     labels, end = G.ref_plain_name(wire, 0)
                 except (G.Reject, IndexError):
@@ -1572,7 +1665,15 @@ class HistProp(Prop):
         elif k == "walk-read":
             bld.walk_op(mode="read")
         elif k == "qwalk":
-            bld.question_walk_op(rng.choice(["read", "M", "M"]))
+            act = rng.choice(["read", "M", "M"])
+            if act == "M":
+                # a stale cached question is only visible when the cache was filled before the question changes and read after
+                if rng.random() < 0.7:
+                    bld.getter_op(rng.choice(["q0", "q1", "q2"]))
+                bld.question_walk_op("M")
+                bld.getter_op(rng.choice(["q0", "q1", "q2"]))
+            else:
+                bld.question_walk_op(act)
         elif k == "qdelete":
             bld.question_walk_op("X")
         elif k == "qr-break":
@@ -1600,9 +1701,13 @@ class C08(HistProp):
             "observed. Plus dedicated families for the three known-finding classes. Non-trivial: history has a mutating step; distinct = "
             "distinct history.")
     strength = ("PARTIAL: the mutation model (coq/Model/Mutate.v, Walk.v) is executable and tied to the implementation step by step; proved "
-                "so far are frame/shape lemmas (C08_insert_shape: a successful insert splices exactly the record at the insertion offset and "
-                "bumps exactly one count; C08_header_setters_keep_view). The invariant 'view = fresh parse after any history' "
-                "(C08_full_statement) is decided each run by the correspondence plus the fresh-parse oracle on every step of every history.")
+                "(unbounded, every accepted packet): recompute and the decompress-first prologue of insert_rr on a freshly parsed object never "
+                "reach the consistency assertion and leave exactly the parse of the pointer-free bytes, flag cleared, cache empty "
+                "(C08_recompute_is_fresh_parse, C08_insert_prologue_is_fresh_parse), because decompression keeps the EDNS summary "
+                "(C08_decompression_keeps_edns_summary, from the summary being a function of the reading's OPT record); plus frame/shape "
+                "lemmas (C08_insert_shape: a successful insert splices exactly the record at the insertion offset and bumps exactly one "
+                "count; C08_header_setters_keep_view). The invariant 'view = fresh parse after any history' for the remaining operations "
+                "is decided each run by the correspondence plus the fresh-parse oracle on every step of every history.")
 
     def gen(self, rng, tier):
         n = 500 if tier == "quick" else 80000
@@ -2004,10 +2109,13 @@ class C07(Prop):
             "variants, partial-label near misses, non-matching names, identity (target = source), targets that push a name past 255 bytes; "
             "RR: replace_raw on single names. Oracle: abstract rename on the decoded message (gen/hist.py apply_rename). Non-trivial: the "
             "source matches at least one name; distinct = distinct (packet, names, mode).")
-    strength = ("PARTIAL: proved: replace_raw never panics on well-formed plain names and returns either no-match, an error, or the name with its "
-                "matching label-aligned suffix replaced by the target (C07_replace_raw_shape). The packet-level statement "
-                "(C07_full_statement) is decided each run by the correspondence and the abstract-rename oracle. Known finding: pointer chains "
-                "deeper than 16 hops (shared with C06).")
+    strength = ("PARTIAL: proved for one name, unbounded over all pointer-free names given by their labels and all non-root sources/targets: "
+                "replace_raw replaces the trailing labels by the target's labels exactly when they equal the source's labels up to ASCII case "
+                "(whole name in exact mode, any label-aligned suffix in suffix mode), fails instead of exceeding 255 bytes, and reports no-match "
+                "in every other case (C07_replaces_matching_suffix, C07_keeps_other_names, C07_identity; the byte loops rr_walk / rr_match / "
+                "all_eq_ci are characterised in Proofs/RenameSpec.v), plus the shape of every replacement (C07_replace_raw_shape). The "
+                "packet-level statement (which names are visited, everything else kept) is decided each run by the correspondence and the "
+                "abstract-rename oracle. Known finding: pointer chains deeper than 16 hops (shared with C06).")
     assumptions = ["bytes < 256", "source and target are well-formed pointer-free non-root names (property precondition)"]
 
     def gen(self, rng, tier):
@@ -2262,7 +2370,7 @@ class C16(Prop):
     rule = ("H: barrier-scripted interleavings replayed on real threads: each step is either a failing C-table call on thread t "
             "(raw_name_from_str with four kinds of bad names, add_to_answer with bad text: five distinct messages, chosen so that concurrent "
             "threads never hold the same message) or error_description on thread t; quick: ALL interleavings of 2 threads x 3 steps and a "
-            "random sample of 3-4 thread schedules of 6-14 steps; two schedules with 70 and 140 live threads; thorough adds all interleavings of 3 threads x 2 steps and longer random "
+            "random sample of 3-4 thread schedules of 6-14 steps; three schedules with 70, 140 and 4100 live threads (thorough: up to 8200); thorough adds all interleavings of 3 threads x 2 steps and longer random "
             "ones. The strings read must equal the model's. Non-trivial: at least one read happens after a failure of ANOTHER thread that "
             "followed the reader's own failure; distinct = distinct schedule.")
     strength = ("full statement for the model: for every interleaving of any number of threads each read returns the reader's most recent "
@@ -2307,7 +2415,7 @@ class C16(Prop):
             k += 1
         # many threads (a bounded table of slots shared round-robin would wrap): thread 0 fails first, N others fail with other messages,
         # thread 0 reads before and after each of them has read; also N live threads that each fail and read in reverse order
-        for n in ((70, 140) if tier == "quick" else (33, 65, 70, 129, 140, 257, 300)):
+        for n in ((70, 140, 4100) if tier == "quick" else (33, 65, 70, 129, 140, 257, 300, 1025, 4100, 8200)):
             st = ["0:f0"] + ["%d:f%d" % (t, 1 + t % 4) for t in range(1, n)] + ["0:r"] + ["%d:r" % t for t in range(n - 1, 0, -1)] + ["0:r"]
             cases.append(Case("h%d" % k, "H,%d,%s" % (n, ".".join(st)), {"family": "many-threads"}))
             k += 1
